@@ -96,6 +96,16 @@ def obligations(tier):
     if quick:
         prov('C09.provider.all_kinds.fin', {'outcome': 0}, '1 request of any of the 7 kinds (selector), direct or queued (symbolic bool), '
                                                             'handler returns Fin')
+    for d, kd in [(d, kd) for d in (False, True) for kd in ((0,) if quick else range(7))]:
+        obs.append(Ob(f'C09.provider.raising_text.{KIND_NAMES[kd]}.{MODE[d]}', 'harness.C09', 'provider_raising_text',
+                      bind={'delayed': d, 'kind': kd}, timeout=t,
+                      functions=FP, stubs=STUBS_PROVIDER + ['serialisability of the error texts is decided by the real lxml (concrete, '
+                                                           'untraced) on the texts handed to response and reports'],
+                      bounds=f'1 {KIND_NAMES[kd]} request, {MODE[d]} processing; the handler raises RuntimeError(text): text = '
+                             '"dev" with one character from 19 boundary code points of the XML 1.0 Char production (NUL, C0 controls, '
+                             'TAB/LF/CR, <, &, DEL, U+D7FF, U+E000, U+FFFD, U+FFFE, U+FFFF, U+10000) at the start, inside or at the end',
+                      claim='a raising handler always ends in exactly one Fail with error information whatever the exception text is; '
+                            'the texts can be put on the wire'))
     # ---- provider, two requests
     for d1 in (False, True):
         for d2 in (False, True):
